@@ -104,6 +104,7 @@ type FuncVC struct {
 	fieldInvs map[string][]*FieldInv
 	specClosure *ssa.Function // specialisation: the function-typed parameter is this closure
 	specClosureVal *ClosureVal
+	curSelf *Term // the function value being called through a function-type contract
 }
 
 type axiomT struct {
@@ -190,6 +191,16 @@ func (vc *FuncVC) render(st *State, goal Term) string {
 	assumptions := append([]Term(nil), st.pc...)
 	assumptions = append(assumptions, vc.strAxioms()...)
 	assumptions = append(assumptions, vc.implFacts...)
+	// distinct functions have distinct function values
+	var fns []string
+	for _, d := range vc.sc.decls {
+		if strings.HasPrefix(d.Name, "fn.") && len(d.Args) == 0 {
+			fns = append(fns, d.Name)
+		}
+	}
+	if len(fns) > 1 {
+		assumptions = append(assumptions, Term{"(distinct " + strings.Join(fns, " ") + ")", SBool})
+	}
 	// relevance filtering of global axioms
 	var tb strings.Builder
 	tb.WriteString(goal.S)
